@@ -744,6 +744,20 @@ def unsound_oracle_call(rec, o):
             if "enum" in req:
                 return "enum-path"
             if "pattern" in req:
+                # the recorded finding F33b is about what the fast path CANNOT take into account: a sibling `format`, or
+                # length bounds that update_quantifier cannot fold into this pattern.  When the bounds can be folded in
+                # (the rewritten pattern differs) and the answer matches the pattern but misses the bounds, the fast path
+                # did not do what it is written to do: that is not F33b
+                lo, hi = req.get("minLength"), req.get("maxLength")
+                if isinstance(ans, str) and (lo is not None or hi is not None):
+                    try:
+                        from schemathesis.specs.openapi.patterns import update_quantifier as _uq
+                        merged = _uq(req["pattern"], lo, hi) != req["pattern"]
+                    except Exception:  # noqa: BLE001
+                        merged = False
+                    length_only = py_valid({k: v for k, v in req.items() if k not in ("minLength", "maxLength")}, ans) is not False
+                    if merged and length_only:
+                        return "pattern-path-length-bounds-not-folded-into-a-foldable-pattern"
                 return "pattern-path"
             if "properties" in req:
                 return "properties-path"
@@ -835,6 +849,8 @@ def member_of_some_enum(schema, value):
 
 
 def oracle_shape(path):
+    if path.startswith("pattern-path-length"):
+        return f"generate_from_schema:{path}"
     return (f"generate_from_schema:{path}" if path.startswith("from-schema") else
             f"generate_from_schema:{path}-ignores-sibling-keywords")
 
@@ -1636,6 +1652,18 @@ def attached_mechanism(chk, runs, mech="cases:attached"):
 
 
 SIG_DOCUMENTED = "C03:_iter_coverage_cases:documented-method-presented-as-unspecified"
+SIG_TEMPLATE_DRIFT = "C03:_iter_coverage_cases:unvaried-part-differs-between-cases-of-one-operation"
+KIND_OF_LOCATION = {"query": "query", "path": "path_parameters", "header": "headers", "cookie": "cookies"}
+# parameters whose generated values change under the transformations _serialize applies (percent-encoding, stringification)
+DRIFT_OPS = [
+    ([("path", "id", True, {"type": "string", "enum": ["a b/c%d"]}), ("query", "q", False, {"type": "integer", "minimum": 1, "maximum": 5})],
+     None, ["post"]),
+    ([("path", "id", True, {"type": "string", "enum": ["in progress"]}),
+      ("header", "X-H", False, {"type": "integer", "minimum": 0, "maximum": 3}), ("query", "flag", False, {"type": "boolean"})],
+     [("application/json", {"type": "integer", "minimum": 0, "maximum": 3})], ["post"]),
+    ([("path", "id", True, {"type": "string", "enum": ["."]}), ("cookie", "c", False, {"type": "string", "enum": ["x y", "z"]}),
+      ("query", "q", True, {"type": "string", "minLength": 1, "maxLength": 3})], None, ["post", "get"]),
+]
 SIG_METHOD_TEXT = "C03:_iter_coverage_cases:unspecified-method-description-differs-from-method-sent"
 SIG_UNDOC_POSITIVE = "C03:_iter_coverage_cases:undocumented-method-case-labelled-positive"
 SIG_MISSING_OPTIONAL = "C03:_iter_coverage_cases:missing-case-for-parameter-not-required"
@@ -1672,6 +1700,24 @@ def cases_mechanism(chk, drv, ops, vb, vh=None):
             if isinstance(d, dict) and "__err__" in d:
                 raise InfraError(f"model error {d}")
         inp = {"params": [list(p) for p in ps], "body": body, "methods": methods, "modes": mk, "ctx": ctx}
+        # ---- the parts of a case that the case does not vary are the template's generated values: what a case labelled by
+        # its varied part carries elsewhere must be the same in every case of the operation (one Template serves them all)
+        first_seen: dict = {}
+        for k_, c_ in enumerate(real):
+            varied_kind = KIND_OF_LOCATION.get(c_["parameter_location"])
+            for kind_, vals_ in c_["values"].items():
+                if kind_ == varied_kind:
+                    continue
+                for name_, v_ in vals_.items():
+                    key_ = (kind_, name_)
+                    if key_ in first_seen and first_seen[key_][1] != v_:
+                        chk.violation(SIG_TEMPLATE_DRIFT,
+                                      f"{kind_}[{name_!r}] is {first_seen[key_][1]!r} in case #{first_seen[key_][0]} and {v_!r} in case "
+                                      f"#{k_} ('{c_['text']}', labelled {c_['mode']}) although neither case varies {kind_}: the value "
+                                      f"placed in the template is not what the later case carries",
+                                      {"mechanism": "cases", **inp, "case_index": k_})
+                        break
+                    first_seen.setdefault(key_, (k_, v_))
         # ---- the two independent readings of the document must agree (Lean `documents` / `requiresParam` vs the Python one)
         if set(jd["documented"]) != run["documented"] or not jd["op_documented"]:
             raise InfraError(f"Lean and Python disagree on the documented methods of {inp}: {jd['documented']} vs {sorted(run['documented'])}")
@@ -1888,6 +1934,7 @@ def run(chk):
            for mk in (("P", "N", "PN") if chk.thorough else (("PN", "N", "P")[i % 3], "PN")[: 1 + (i % 2)])]
     ops = [("cases:grid", *o) for o in ops]
     ops += [("cases:random", *GEN.random_operation(rng), rng.choice(["P", "N", "PN", "PN"])) for _ in range(chk.budget(120, 2000))]
+    ops += [("cases:template-values", ps_, body_, ms_, mk_) for ps_, body_, ms_ in DRIFT_OPS for mk_ in ("P", "PN", "N")]
     cases_mechanism(chk, drv, ops, vb)
     tm.lap("cases")
     # the operation inside its document: path item inline / behind a reference, further fields in it, parameters declared at
